@@ -225,6 +225,19 @@ CHECKS = {
         note="scheduler granularity is a source line (no preemption between bytecodes, no free-threaded memory model); the number of "
              "distinct outcomes per thread pair is reported (1 on a stateless library; a hoisted-scratch-buffer mutant yields several)",
         design="§2.6, §3 C17"),
+    "C19": dict(
+        technique="bounded-exhaustive enumeration of exportable terms x canonical encodings; the exported schema is executed by an interpreter for the emitted KSY dialect (model) and every field extent/value is compared with the implementation's parse",
+        text="For every exportable term of the fragment (about 330 shapes at depth <=2, more at depth 3 in thorough: every fixed-width "
+             "integer and float, Int24, VarInt, bytes, the string macros, Flag, Enum, FlagsEnum, Const, Padding, nested Struct, Array with "
+             "constant and this-count, GreedyRange, RepeatUntil, Prefixed, PrefixedArray, If, IfThenElse, bit structs with arrays and "
+             "nested structs, Pointer, NullTerminated, NullStripped, FixedSized, Padded, pass-through wrappers) export_ksy() is called with "
+             "a ruamel.yaml stand-in that captures the schema dict; mc/ksy.py interprets the schema with Kaitai semantics on up to 4 "
+             "diverse canonical encodings. The ids must be the member names in declaration order, every named field must get the byte "
+             "extent construct uses (reference read log) and the scalar value construct parses, the total extent must agree, and a "
+             "contradictory or incomplete schema (size with size-eos, enum without integer type, type None) is a violation of its own.",
+        note="trusts mc/ksy.py (Kaitai semantics of the emitted dialect, incl. the exporter's non-standard u3be/u1be spellings and its "
+             "construct-syntax expressions) and mc/ref.py's read log; YAML serialisation itself is not exercised (ruamel.yaml absent)",
+        design="§3 C19"),
 }
 
 PENDING_REASON = "check not built yet in this round (see DESIGN.md §7 build order); it will be decided by the same bounded-exhaustive engine"
